@@ -90,3 +90,101 @@ pub fn hir_corpus() -> Vec<Spec> {
     });
     v
 }
+
+/// specs for the compile layer: one per shape whose emitted code was once rejected by rustc
+pub fn compile_corpus() -> Vec<Spec> {
+    let mut v = vec![];
+    // result: array of $ref; free-form object; map
+    v.push(Spec {
+        components: vec![("Pet".into(), s_obj(vec![("id", inl(s_int())), ("name", inl(s_string()))], &["id"]))],
+        paths: vec![
+            item("/pets", vec![op("get", Some("listPets"), vec![(200, Some(inl(s_arr(rf("Pet")))))])]),
+            item("/raw", vec![op("get", Some("getRaw"), vec![(200, Some(inl(Schema { kind: Kind::Object { props: vec![], required: vec![], addl: None }, ..Default::default() })))])]),
+        ],
+        ..Default::default()
+    });
+    // more than three required inputs, none a string, one optional string
+    v.push(Spec {
+        paths: vec![item(
+            "/calc",
+            vec![Op {
+                params: vec![
+                    Param { name: "a".into(), loc: Loc::Query, required: true, schema: inl(s_int()) },
+                    Param { name: "b".into(), loc: Loc::Query, required: true, schema: inl(s_int()) },
+                    Param { name: "c".into(), loc: Loc::Query, required: true, schema: inl(s_num()) },
+                    Param { name: "d".into(), loc: Loc::Header, required: true, schema: inl(s_bool()) },
+                    Param { name: "note".into(), loc: Loc::Query, required: false, schema: inl(s_string()) },
+                ],
+                ..op("get", Some("calc"), vec![(200, None)])
+            }],
+        )],
+        ..Default::default()
+    });
+    // oauth2
+    v.push(Spec {
+        paths: vec![item("/me", vec![op("get", Some("me"), vec![(200, None)])])],
+        schemes: vec![(
+            "oauth".into(),
+            Scheme::OAuth2 { auth_url: "https://example.com/authorize".into(), token_url: "https://example.com/token".into(), refresh_url: None, scopes: vec![] },
+        )],
+        security: vec![vec!["oauth".into()]],
+        ..Default::default()
+    });
+    // trait bounds across generated items: alias of an enum, structs that contain it directly and transitively,
+    // a tuple struct over an enum list, a map alias; enum-typed query and header inputs
+    v.push(Spec {
+        components: vec![
+            ("Kind".into(), s_enum(&["cat", "dog"])),
+            ("AnimalKind".into(), Schema { kind: Kind::AllOf(vec![rf("Kind")]), ..Default::default() }),
+            ("Animal".into(), s_obj(vec![("id", inl(s_int())), ("kind", rf("AnimalKind")), ("name", inl(s_string()))], &["id", "kind"])),
+            ("Kennel".into(), s_obj(vec![("animal", rf("Animal")), ("labels", rf("Labels"))], &["animal", "labels"])),
+            ("Kinds".into(), s_arr(rf("Kind"))),
+            ("Shelf".into(), s_obj(vec![("kinds", rf("Kinds")), ("maybe", rf("MaybeAnimal"))], &["kinds", "maybe"])),
+            ("Labels".into(), Schema { kind: Kind::Object { props: vec![], required: vec![], addl: Some(Addl::Schema(inl(s_string()))) }, ..Default::default() }),
+            ("MaybeAnimal".into(), Schema { kind: Kind::AllOf(vec![rf("Animal")]), nullable: true, ..Default::default() }),
+        ],
+        paths: vec![
+            item("/animals", vec![Op {
+                params: vec![
+                    Param { name: "kind".into(), loc: Loc::Query, required: true, schema: rf("Kind") },
+                    Param { name: "alias".into(), loc: Loc::Header, required: false, schema: rf("AnimalKind") },
+                    Param { name: "kinds".into(), loc: Loc::Query, required: false, schema: inl(s_arr(rf("Kind"))) },
+                    Param { name: "since".into(), loc: Loc::Cookie, required: false, schema: inl(s_fmt("date")) },
+                ],
+                body: Some(rf("Kennel")),
+                ..op("post", Some("listAnimals"), vec![(200, Some(rf("Animal")))])
+            }]),
+            item("/kennel", vec![op("get", Some("getKennel"), vec![(200, Some(rf("Kennel")))])]),
+            item("/shelf", vec![op("get", Some("getShelf"), vec![(200, Some(rf("Shelf")))])]),
+        ],
+        ..Default::default()
+    });
+    // the required-arguments struct: borrowed list of strings as the only borrowed required input; only optional strings;
+    // strings and lists together
+    v.push(Spec {
+        paths: vec![
+            item("/tagged", vec![Op {
+                params: vec![
+                    Param { name: "tags".into(), loc: Loc::Query, required: true, schema: inl(s_arr(inl(s_string()))) },
+                    Param { name: "a".into(), loc: Loc::Query, required: true, schema: inl(s_int()) },
+                    Param { name: "b".into(), loc: Loc::Query, required: true, schema: inl(s_int()) },
+                    Param { name: "c".into(), loc: Loc::Header, required: true, schema: inl(s_bool()) },
+                    Param { name: "note".into(), loc: Loc::Query, required: false, schema: inl(s_string()) },
+                ],
+                ..op("get", Some("tagged"), vec![(200, None)])
+            }]),
+            item("/named", vec![Op {
+                params: vec![
+                    Param { name: "name".into(), loc: Loc::Query, required: true, schema: inl(s_string()) },
+                    Param { name: "tags".into(), loc: Loc::Header, required: true, schema: inl(s_arr(inl(s_string()))) },
+                    Param { name: "a".into(), loc: Loc::Query, required: true, schema: inl(s_int()) },
+                    Param { name: "ids".into(), loc: Loc::Query, required: true, schema: inl(s_arr(inl(s_int()))) },
+                    Param { name: "opt".into(), loc: Loc::Query, required: false, schema: inl(s_arr(inl(s_string()))) },
+                ],
+                ..op("put", Some("named"), vec![(200, None)])
+            }]),
+        ],
+        ..Default::default()
+    });
+    v
+}
